@@ -1,6 +1,237 @@
-(* C02 - placeholder replaced by the real statements (kept compiling at every commit). *)
-From Coq Require Import ZArith List.
-From Verif Require Import Num.Amount Calc.Doc Calc.Calc.
-Theorem no_rows_no_groups cr c : base_totals cr c nil = nil.
-Proof. reflexivity. Qed.
-Print Assumptions no_rows_no_groups.
+(* C02 - Tax totals: every taxed row goes to exactly one rate group of its category; group,
+   category and total amounts; prices that include a tax.
+   Property theorems only; every proof is `exact <lemma>` from Calc/TaxProofs.v.  The statements are
+   about the calculation model Calc/Calc.v (tied to bill/calculator.go, tax/totals_calculator.go,
+   tax/totals.go by the differential check tools/props/c02.py).  toQ a is the rational an amount
+   denotes, roundQ e q is q rounded half away from zero to e decimals (Num/AmountProofs.v).
+   Rounding rule: cr = false is 'precise', cr = true is 'currency';
+   contrib cr c x = x under 'precise', = rescale x c (x rounded to the currency's c decimals)
+   under 'currency'. *)
+From Coq Require Import ZArith QArith List Bool String.
+From Verif Require Import Base.Wire Base.Rha Num.Amount Num.AmountProofs Calc.Doc Calc.Calc Calc.TaxProofs.
+Import ListNotations.
+Open Scope Q_scope.
+
+(* ---- (a) which group a row belongs to ---- *)
+(* opt_eqQ a b: both absent or both present with equal value.
+   same_rate p s q s2: both percentages absent (exempt), or both present and equal together with
+   opt_eqQ of the surcharges. *)
+Theorem group_matches_combo_iff rt cb :
+  rt_matches rt cb = true <->
+  rt_ext rt = cb_ext cb /\ rt_country rt = cb_country cb /\
+  same_rate (rt_pct rt) (rt_sur rt) (cb_pct cb) (cb_sur cb).
+Proof. exact (rt_matches_spec rt cb). Qed.
+Print Assumptions group_matches_combo_iff.
+
+Theorem new_group_matches_its_combo c cb : rt_matches (new_rt c cb) cb = true.
+Proof. exact (rt_matches_new c cb). Qed.
+Print Assumptions new_group_matches_its_combo.
+
+Theorem adding_a_base_keeps_what_a_group_matches cr tot rt cb :
+  rt_matches (rt_add_base cr tot rt) cb = rt_matches rt cb.
+Proof. exact (rt_matches_add_base cr tot rt cb). Qed.
+Print Assumptions adding_a_base_keeps_what_a_group_matches.
+
+(* ---- (b), (c) one row, one combo: exactly one group of exactly one category changes ---- *)
+(* the rows of a document: its lines (line total), its discounts (amount negated), its charges *)
+Theorem rows_are_lines_negated_discounts_and_charges d lcs :
+  doc_rows d lcs =
+  map (fun p => mkTL (lc_total (fst p)) (ln_taxes (snd p))) (combine lcs (d_lines d)) ++
+  map (fun p => mkTL (negate (snd p)) (dd_taxes (fst p))) (doc_ddc d lcs (d_discounts d)) ++
+  map (fun p => mkTL (snd p) (dd_taxes (fst p))) (doc_ddc d lcs (d_charges d)).
+Proof. exact (doc_rows_spec d lcs). Qed.
+Print Assumptions rows_are_lines_negated_discounts_and_charges.
+
+(* the group list is unchanged except for ONE group g - the first one matching the combo, or a
+   fresh one appended when none matches - which receives the row's total *)
+Theorem row_goes_to_exactly_one_group cr c tot cb rts :
+  exists l1 g l2,
+    (rts = l1 ++ g :: l2 \/ (rts = l1 /\ l2 = [] /\ g = new_rt c cb)) /\
+    Forall (fun x => rt_matches x cb = false) l1 /\
+    rt_matches g cb = true /\
+    add_to_rates cr c tot cb rts = l1 ++ rt_add_base cr tot g :: l2.
+Proof. exact (add_to_rates_effect cr c tot cb rts). Qed.
+Print Assumptions row_goes_to_exactly_one_group.
+
+Theorem row_goes_to_exactly_one_category cr c tot cb cts :
+  exists l1 ct l2,
+    (cts = l1 ++ ct :: l2 \/ (cts = l1 /\ l2 = [] /\ ct = new_ct c cb)) /\
+    Forall (fun x => ct_code x <> cb_cat cb) l1 /\
+    ct_code ct = cb_cat cb /\
+    add_to_cats cr c tot cb cts =
+      l1 ++ ct_with_rates ct (add_to_rates cr c tot cb (ct_rates ct)) :: l2.
+Proof. exact (add_to_cats_effect cr c tot cb cts). Qed.
+Print Assumptions row_goes_to_exactly_one_category.
+
+(* exp_ok cr c g: under 'currency' the base has the currency's c decimals (always so in
+   base_totals: bases_keep_currency_precision below) *)
+Theorem group_base_grows_by_the_row cr c tot g :
+  exp_ok cr c g -> toQ (rt_base (rt_add_base cr tot g)) == toQ (rt_base g) + toQ (contrib cr c tot).
+Proof. exact (rt_add_base_toQ cr c tot g). Qed.
+Print Assumptions group_base_grows_by_the_row.
+
+Example group_base_grows_by_the_row_applies :
+  exp_ok true 2 (new_rt 2 (mkCombo [] [] [] None None false [])).
+Proof. exact (exp_ok_new true 2 _). Qed.
+
+Theorem bases_keep_currency_precision cr c tls :
+  Forall (fun ct => Forall (exp_ok cr c) (ct_rates ct)) (base_totals cr c tls).
+Proof. exact (base_totals_exp_ok cr c tls). Qed.
+Print Assumptions bases_keep_currency_precision.
+
+(* cats_wf: every category code occurs once (NoDup) and inside a category no group matches the
+   combo another group stands for (distinct_groups) *)
+Theorem groups_are_pairwise_distinct cr c tls : cats_wf (base_totals cr c tls).
+Proof. exact (groups_pairwise_distinct cr c tls). Qed.
+Print Assumptions groups_are_pairwise_distinct.
+
+Theorem at_most_one_group_matches_a_combo l1 g l2 cb :
+  distinct_groups (l1 ++ g :: l2) -> rt_matches g cb = true ->
+  forall h, In h (l1 ++ l2) -> rt_matches h cb = false.
+Proof. exact (at_most_one_group_matches l1 g l2 cb). Qed.
+Print Assumptions at_most_one_group_matches_a_combo.
+
+Example at_most_one_group_matches_a_combo_applies :
+  let cb := mkCombo [] [] [] (Some (mkA 21 2)) None false [] in
+  let cb2 := mkCombo [] [] [] (Some (mkA 10 2)) None false [] in
+  distinct_groups ([new_rt 2 cb2] ++ new_rt 2 cb :: []) /\ rt_matches (new_rt 2 cb) cb = true.
+Proof.
+  split; [|vm_compute; reflexivity]. cbn [app distinct_groups].
+  split; [|split; [constructor|exact I]]. constructor; [vm_compute; reflexivity|constructor].
+Qed.
+
+(* sumQ_bases cat cts: sum of the bases of all groups of the category with code cat;
+   sumQ_rows cr c cat rows: sum over the rows and over each row's combos of category cat of the
+   row's total (under 'currency': rounded to c decimals) *)
+Theorem tax_partition_precise c rows cat :
+  sumQ_bases cat (base_totals false c rows) == sumQ_rows false c cat rows.
+Proof. exact (tax_partition c rows cat). Qed.
+Print Assumptions tax_partition_precise.
+
+Theorem tax_partition_either_rule cr c rows cat :
+  sumQ_bases cat (base_totals cr c rows) == sumQ_rows cr c cat rows.
+Proof. exact (tax_partition_rule cr c rows cat). Qed.
+Print Assumptions tax_partition_either_rule.
+
+(* per step: the category of the combo grows by the row's contribution, every other one stays *)
+Theorem one_row_changes_one_category_sum cr c tot cb cts cat :
+  cats_exp_ok cr c cts ->
+  sumQ_bases cat (add_to_cats cr c tot cb cts) ==
+  sumQ_bases cat cts + (if eqb_bytes (cb_cat cb) cat then toQ (contrib cr c tot) else 0).
+Proof. exact (add_to_cats_sum cr c tot cb cts cat). Qed.
+Print Assumptions one_row_changes_one_category_sum.
+
+Example one_row_changes_one_category_sum_applies : cats_exp_ok true 2 [].
+Proof. constructor. Qed.
+
+(* ---- (d) group and category amounts ---- *)
+(* group_amounts_ok c g: an exempt group has amount zero; otherwise
+   rt_amount g = pct_of p (rt_base g) with value roundQ (exp base) (toQ base * toQ p) at the base's
+   precision, and likewise rt_suramount g for a surcharge s *)
+Theorem group_amount_is_percentage_of_base cr c ct :
+  Forall (group_amounts_ok c) (ct_rates (ct_calc cr c ct)) /\
+  map rt_base (ct_rates (ct_calc cr c ct)) = map rt_base (ct_rates ct) /\
+  ct_code (ct_calc cr c ct) = ct_code ct /\ ct_retained (ct_calc cr c ct) = ct_retained ct.
+Proof. exact (TaxProofs.group_amount_is_percentage_of_base cr c ct). Qed.
+Print Assumptions group_amount_is_percentage_of_base.
+
+(* sumQ_amounts / sumQ_surcharges: sums of contrib cr c (rt_amount g) over the non-exempt groups,
+   of contrib cr c (rt_suramount g) over the non-exempt groups carrying a surcharge *)
+Theorem category_amount_is_sum_of_groups cr c ct :
+  let ct' := ct_calc cr c ct in
+  toQ (ct_amount ct') == sumQ_amounts cr c (ct_rates ct') /\
+  optQ (ct_surcharge ct') == sumQ_surcharges cr c (ct_rates ct') /\
+  (ct_surcharge ct' = None <-> existsb carries_surcharge (ct_rates ct') = false) /\
+  ct_precise ct' = ct_amount ct'.
+Proof. exact (TaxProofs.category_amount_is_sum_of_groups cr c ct). Qed.
+Print Assumptions category_amount_is_sum_of_groups.
+
+Theorem category_amount_is_sum_of_groups_precise c ct :
+  let ct' := ct_calc false c ct in
+  toQ (ct_amount ct') ==
+    fold_right (fun g s => match rt_pct g with Some _ => toQ (rt_amount g) | None => 0 end + s) 0 (ct_rates ct').
+Proof. exact (TaxProofs.category_amount_is_sum_of_groups_precise c ct). Qed.
+Print Assumptions category_amount_is_sum_of_groups_precise.
+
+Theorem category_amount_is_integer_sum_currency c ct :
+  let ct' := ct_calc true c ct in
+  exp (ct_amount ct') = c /\
+  val (ct_amount ct') =
+    fold_right (fun g s => match rt_pct g with Some _ => val (rescale (rt_amount g) c) | None => 0 end + s)%Z 0%Z
+               (ct_rates ct').
+Proof. exact (category_amount_currency c ct). Qed.
+Print Assumptions category_amount_is_integer_sum_currency.
+
+(* ---- (e) the tax sum ---- *)
+(* signedQ ct = amount + surcharge of the category, negated when the category is retained *)
+Theorem tax_sum_is_signed_sum_of_categories cr c cts :
+  toQ (fold_left (sum_step cr) (map (ct_calc cr c) cts) (zero_of c)) == sumQ_signed (map (ct_calc cr c) cts).
+Proof. exact (tax_sum_signed cr c cts). Qed.
+Print Assumptions tax_sum_is_signed_sum_of_categories.
+
+(* ---- where these sit in a calculated document ---- *)
+Theorem calculated_document_tax_structure d t : calculate d = Totals t ->
+  exists lcs rows,
+    calc_lines (d_currency_rule d) (d_c d) (d_cur d) (d_rates d) (d_lines d) = Some lcs /\
+    remove_included_all (d_pit d) (map (prepare_tl (d_c d)) (doc_rows d lcs)) = Some rows /\
+    let cats := map (ct_calc (d_currency_rule d) (d_c d)) (base_totals (d_currency_rule d) (d_c d) rows) in
+    t_cats t = map (ct_round (d_c d)) cats /\
+    t_taxsum_precise t = fold_left (sum_step (d_currency_rule d)) cats (zero_of (d_c d)) /\
+    t_taxsum t = rescale (t_taxsum_precise t) (d_c d).
+Proof. exact (calculate_tax_structure d t). Qed.
+Print Assumptions calculated_document_tax_structure.
+
+(* ---- prices include a tax ---- *)
+(* a row keeps its combos; if it carries the included category with a percentage p its total
+   becomes remove total p ... *)
+Theorem included_tax_is_taken_out_of_the_row pit tl tl' : remove_included pit tl = Some tl' ->
+  tl_taxes tl' = tl_taxes tl /\
+  match get_combo pit (tl_taxes tl) with
+  | Some cb =>
+    match pit, cb_pct cb with
+    | _ :: _, Some p => cb_retained cb = false /\ tl_total tl' = remove (tl_total tl) p
+    | _, _ => tl_total tl' = tl_total tl
+    end
+  | None => tl_total tl' = tl_total tl
+  end.
+Proof. exact (remove_included_spec pit tl tl'). Qed.
+Print Assumptions included_tax_is_taken_out_of_the_row.
+
+(* ... which is the total divided by 1 + p, rounded half away from zero at the row's precision *)
+Theorem included_tax_uses_its_own_percentage a p : (val (factor p) <> 0)%Z ->
+  val (remove a p) = roundQ (exp a) (toQ a / (toQ p + 1)) /\ exp (remove a p) = exp a.
+Proof. exact (included_tax_taken_out a p). Qed.
+Print Assumptions included_tax_uses_its_own_percentage.
+
+Example included_tax_uses_its_own_percentage_applies : (val (factor (mkA 21 2)) <> 0)%Z.
+Proof. vm_compute. discriminate. Qed.
+
+(* only_included_tax d: a category is included in prices and every combo of every line, discount
+   and charge is of that category, not retained and without surcharge (combo_inv).
+   doc_gross d lcs: sum of the line totals, less document discounts, plus document charges.
+   Partial: the property's "no other tax applies" is taken to exclude surcharges of the included
+   category too (a surcharge is added on top of the gross sum). *)
+Theorem included_tax_gross_identity_partial d t : only_included_tax d -> calculate d = Totals t ->
+  exists lcs,
+    calc_lines (d_currency_rule d) (d_c d) (d_cur d) (d_rates d) (d_lines d) = Some lcs /\
+    t_twt t = rescale (doc_gross d lcs) (d_c d).
+Proof. exact (included_tax_gross_identity d t). Qed.
+Print Assumptions included_tax_gross_identity_partial.
+
+(* 121.00 including 21%: total 100.00, tax 21.00, total with tax 121.00 *)
+Definition c02_example_doc : doc :=
+  mkDoc 2 false (bs "VAT") 1
+        [mkLine (mkA 1 0) (mkItem (mkA 12100 2) None []) [] [] []
+                [mkCombo (bs "VAT") [] [] (Some (mkA 21 2)) None false (bs "standard")]]
+        [] [] [] [] [] None.
+(* also witnesses the hypotheses of calculated_document_tax_structure and
+   included_tax_is_taken_out_of_the_row *)
+Example included_tax_gross_identity_applies :
+  only_included_tax c02_example_doc /\
+  exists t, calculate c02_example_doc = Totals t /\
+            t_twt t = mkA 12100 2 /\ t_total t = mkA 10000 2 /\ t_tax t = mkA 2100 2.
+Proof.
+  split.
+  - split; [discriminate|]. repeat constructor.
+  - eexists. split; [vm_compute; reflexivity|]. repeat split.
+Qed.
